@@ -5,7 +5,7 @@
     source are regenerated into Gen/FsWalk_gen.v on every run and the premises [backend_keys_ok], [walk_ok] (and
     the chain parameters) are discharged for them by kernel-checked instance obligations in checks/c19.py. *)
 From Coq Require Import List NArith Bool Permutation.
-From SV Require Import SM.FsChain SM.FsChainProofs SM.FsChainRel SM.FsChainWitness SM.FsChainRaw SM.FsChainCompose SM.FsChainComplete SM.FsChainNorm SM.FsChainForms SM.FsChainFormsProofs SM.FsChainWhole SM.FsChainRead SM.FsChainReadProofs.
+From SV Require Import SM.FsChain SM.FsChainProofs SM.FsChainRel SM.FsChainWitness SM.FsChainRaw SM.FsChainCompose SM.FsChainComplete SM.FsChainNorm SM.FsChainForms SM.FsChainFormsProofs SM.FsChainWhole SM.FsChainRead SM.FsChainReadProofs SM.FsChainMixed.
 Import ListNotations.
 Open Scope N_scope.
 
@@ -494,3 +494,26 @@ Proof.
   split; [exact reader_today_whole|]. destruct reader_short_refuted as [A [B [C _]]]. destruct open_through_short_reader_refuted as [D _].
   repeat split; assumption.
 Qed.
+
+(** ** Round 3: chains that also contain the directory backend (exact-case names). *)
+
+(** Members are folding backends of any kind or directory backends ([MRaw ops fs p], [ops] = what reaches
+    [_resolve_path]).  On every query that is exact for the directory members - for each of them the name it is asked
+    for (subfolder joined with the query, slashes converted, redundant parts removed) is a stored name of it or matches
+    none of its names even up to case - the chain's lookup is the specification [chain_spec] ... *)
+Theorem c19_chain_with_directory_members_spec : forall ms q,
+  Forall (mmember_ok q) ms -> mchain_get ms q = chain_spec (map m_spec ms) q.
+Proof. exact mchain_get_spec. Qed.
+(** ... so a directory member and a folding member holding the same files are interchangeable on such queries ... *)
+Theorem c19_chain_directory_kind_unobservable : forall ms1 ms2 q,
+  Forall (mmember_ok q) ms1 -> Forall (mmember_ok q) ms2 -> map m_spec ms1 = map m_spec ms2 ->
+  mchain_get ms1 q = mchain_get ms2 q.
+Proof. exact mchain_kind_unobservable. Qed.
+(** ... and the premise is needed: asked for "a" a directory member holding "A" misses where a folding member hits
+    ("for exact-case names" in the property text); asked for "A" both serve the file. *)
+Theorem c19_chain_directory_case_refuted :
+  map m_spec mixed_raw = map m_spec mixed_fold
+  /\ mchain_get mixed_raw [97] = None /\ mchain_get mixed_fold [97] = Some ([65], [1])
+  /\ mchain_get mixed_raw [65] = Some ([65], [1]) /\ mchain_get mixed_fold [65] = Some ([65], [1])
+  /\ Forall (mmember_ok [65]) mixed_raw.
+Proof. exact mchain_case_needs_exact_refuted. Qed.
